@@ -201,6 +201,8 @@ Definition check_instruction (d : device) (o : Ast.operation) (args : list iop) 
   | OLpm => match args with [] => true | _ => allow d NoLpmX end
   | OElpm => match args with [] => true | _ => allow d NoElpmX end
   | OLd | OSt | OLdd | OStd =>
+      (* ld / st written with a displacement assemble to LDD / STD *)
+      (negb (existsb (fun a => match a with OIndex (IPostIncE _ _) => true | _ => false end) args) || allow d Tiny1x) &&
       forallb (fun a => match index_reg a with Some RX => allow d NoXreg | Some RY => allow d NoYreg | _ => true end) args
   | _ => true
   end.
